@@ -31,6 +31,7 @@ type Env struct {
 	pkg       *types.Package
 	loop      *loopInfo
 	laxLocals bool // call clauses: see instr.go
+	localsSt  *State // inside old(...): locals that have no value in the entry state denote their current value
 	bv        bool // bv64 mode
 	deps      map[string]bool
 	fuelSelf  string // inside the body of this recursive spec function, self-calls use the bound fuel "ly"
@@ -229,6 +230,9 @@ func (env *Env) elab(e Expr) (Val, error) {
 				return Val{}, fmt.Errorf("old() not available here")
 			}
 			c.st = env.old
+			if c.localsSt == nil {
+				c.localsSt = env.st
+			}
 		} else {
 			if env.pre == nil {
 				return Val{}, fmt.Errorf("pre() only inside loop invariants")
